@@ -11,11 +11,12 @@ PENDING = {}
 pend_file = os.path.join(HERE, "tools", "pending.json")
 if os.path.exists(pend_file):
     PENDING = json.load(open(pend_file))
+READY = set(json.load(open(os.path.join(HERE, "tools", "ready.json"))))  # checks vetted by the main session
 checks, na, engines = [], [], {}
 for p in props:
     pid = p["id"]
     path = os.path.join(HERE, "checks", pid.lower() + ".py")
-    if not os.path.exists(path):
+    if not os.path.exists(path) or pid not in READY:
         na.append({"property_id": pid, "reason": PENDING.get(pid, "no check built yet for this property in this tree (work in progress; design in DESIGN.md section %s)" % pid)})
         continue
     src = open(path).read()
